@@ -33,10 +33,14 @@ SUB_KINDS = ["exit1", "stderr_error", "garbage", "kill_parent_after", "kill_pare
 Q_KINDS = ["exit1", "stderr_error", "garbage"]
 
 
+QUICK_BUDGET = {"cases": 560, "deadline_s": 110, "case_timeout_s": 120, "floors": {"faults_injected": 430, "second_runs_checked": 380, "kill_points": 100, "write_kills": 40}}
+THOROUGH_FACTOR = 12  # thorough = the same workload with 12x the cases (floors scale along)
+
+
 def budget(tier):
-    if tier == "thorough":
-        return {"cases": 6720, "deadline_s": 900, "case_timeout_s": 180, "floors": {"faults_injected": 5500, "second_runs_checked": 5000, "kill_points": 1500, "write_kills": 600}}
-    return {"cases": 560, "deadline_s": 110, "case_timeout_s": 120, "floors": {"faults_injected": 430, "second_runs_checked": 380, "kill_points": 100, "write_kills": 40}}
+    from ..core import scaled_budget
+
+    return scaled_budget(QUICK_BUDGET, tier, THOROUGH_FACTOR, noscale=())
 
 
 def fault_list(sched, n, pre):
